@@ -16,3 +16,170 @@ def targets():
     except ImportError:
         pass
     return ts
+
+
+def target_connection_emitters():
+    """Series.to_string / Parallel.to_string / Circuit.to_string / Circuit.serialize on recording children: a connection prints
+    its opening bracket, the texts of its children in order -- each asked once, with the SAME `decimals` -- and its closing
+    bracket ('[' ']' for series, '(' ')' for parallel: the token pairs Parser.connection is proved against); a circuit prints its
+    top-level series; serialize() prefixes the version header `!V=<n>!` and refuses decimals < 1."""
+    import z3
+    from pyvc import overload as O
+    from pyvc.core import Session
+
+    def run(sess: Session):
+        for module, qual, lo, hi in (("circuit/series", "Series.to_string", "[", "]"), ("circuit/parallel", "Parallel.to_string", "(", ")")):
+            for decimals in (-1, 3, 12):
+                asked = []
+
+                class Child:
+                    def __init__(self, name):
+                        self.name = name
+
+                    def to_string(self, decimals=-1):
+                        asked.append((self.name, decimals))
+                        return f"<{self.name}>"
+                me = type("Me", (), {"_elements": [Child("a"), Child("b"), Child("c")]})()
+                ns = {"map": map}
+                O.load(module, [qual], ns)
+                out = ns["to_string"](me, decimals=decimals)
+                sess.check("post", [], z3.BoolVal(out == f"{lo}<a><b><c>{hi}" and asked == [("a", decimals), ("b", decimals), ("c", decimals)]), 0,
+                           label=f"{qual}(decimals={decimals}) == '{lo}' + children in order (same decimals, each asked once) + '{hi}'")
+                empty = type("Me", (), {"_elements": []})()
+                sess.check("post", [], z3.BoolVal(ns["to_string"](empty, decimals=decimals) == lo + hi), 0, label=f"{qual}(decimals={decimals}) of an empty connection == '{lo}{hi}'")
+        # Circuit
+        asked = []
+
+        class Top:
+            def to_string(self, decimals=-1):
+                asked.append(decimals)
+                return "[TOP]"
+        ns = {"VERSION": 7}
+        O.load("circuit/circuit", ["Circuit.to_string", "Circuit.serialize"], ns)
+        me = type("C", (), {"_elements": Top()})()
+        me.to_string = lambda decimals=-1: ns["to_string"](me, decimals=decimals)
+        sess.check("post", [], z3.BoolVal(ns["to_string"](me, decimals=5) == "[TOP]" and asked == [5]), 0, label="Circuit.to_string(decimals) == top-level series' text with the same decimals")
+        asked.clear()
+        sess.check("post", [], z3.BoolVal(ns["serialize"](me, decimals=9) == "!V=7![TOP]" and asked == [9]), 0, label="Circuit.serialize(decimals) == '!V=<VERSION>!' + to_string(decimals)")
+        refused = False
+        try:
+            ns["serialize"](me, decimals=0)
+        except ValueError:
+            refused = True
+        sess.check("post", [], z3.BoolVal(refused), 0, label="Circuit.serialize refuses decimals < 1")
+    return ("circuit/series:Series.to_string / Parallel.to_string / Circuit.serialize", "circuit/series", "Series.to_string", run)
+
+
+_targets_c03_core = targets
+
+
+def targets():      # noqa: F811
+    return _targets_c03_core() + [target_connection_emitters()]
+
+
+def target_element_emitter():
+    """Element.to_string(decimals >= 0): structure and data flow of the emitted text, independent of how numbers are formatted:
+    SYMBOL{key=<value>[F]/<lower or inf>/<upper or inf>,...[:label]} with the keys of get_values() in order, each number reading
+    back (float()) as that parameter's own value / lower limit / upper limit, `F` exactly on the fixed ones, `inf` exactly for the
+    infinite limits, the label after a colon iff there is one.  Distinct tagged values stand for arbitrary ones; all combinations
+    of {finite, infinite} limits x fixed flags x label x decimals in {1, 6, 12} are enumerated."""
+    import itertools
+    import math
+    import re
+    import z3
+    from pyvc import overload as O
+    from pyvc.core import Session
+
+    def run(sess: Session):
+        ns = {"_is_integer": lambda x: isinstance(x, int), "isinf": math.isinf}
+        O.load("circuit/base", ["Element.to_string"], ns)
+        fn = ns["to_string"]
+        num = r"[-+]?[0-9.]+(?:[eE][-+]?[0-9]+)?"
+        n = 0
+        bad = {}
+        for lo_inf, up_inf, fixed, label, decimals in itertools.product(itertools.product((False, True), repeat=2), itertools.product((False, True), repeat=2),
+                                                                        itertools.product((False, True), repeat=2), ("", "lbl"), (1, 6, 12)):
+            vals = {"R": 1.5, "Yq": 0.062}          # two significant digits: exact at every printed precision
+            lows = {"R": (-math.inf if lo_inf[0] else 0.5), "Yq": (-math.inf if lo_inf[1] else 0.031)}
+            ups = {"R": (math.inf if up_inf[0] else 7.5), "Yq": (math.inf if up_inf[1] else 0.87)}
+            fx = {"R": fixed[0], "Yq": fixed[1]}
+            me = type("E", (), {"_label": label, "get_symbol": lambda s: "Sy", "get_values": lambda s: dict(vals), "get_lower_limits": lambda s: dict(lows),
+                                "get_upper_limits": lambda s: dict(ups), "are_fixed": lambda s: dict(fx)})()
+            out = fn(me, decimals=decimals)
+            n += 1
+            m = re.fullmatch(r"Sy\{(.*?)(?::(.*))?\}", out)
+            ok = m is not None and (m.group(2) or "") == label
+            if ok:
+                parts = m.group(1).split(",")
+                ok = len(parts) == 2
+                for part, key in zip(parts, ("R", "Yq")):
+                    pm = re.fullmatch(rf"({re.escape(key)})=({num})(F?)/({num}|inf)/({num}|inf)", part)
+                    ok = ok and pm is not None
+                    if pm is None:
+                        break
+                    ok = ok and float(pm.group(2)) == vals[key] and (pm.group(3) == "F") == fx[key]
+                    ok = ok and ((pm.group(4) == "inf") == math.isinf(lows[key])) and (pm.group(4) == "inf" or float(pm.group(4)) == lows[key])
+                    ok = ok and ((pm.group(5) == "inf") == math.isinf(ups[key])) and (pm.group(5) == "inf" or float(pm.group(5)) == ups[key])
+            if not ok:
+                bad.setdefault((lo_inf, up_inf, fixed, bool(label)), out)
+        for lo_inf, up_inf in itertools.product(itertools.product((False, True), repeat=2), repeat=2):
+            w = [v for k, v in bad.items() if k[0] == lo_inf and k[1] == up_inf]
+            ob = sess.check("post", [], z3.BoolVal(not w), 0, label=f"Element.to_string: key=value[F]/lower/upper per parameter, own numbers, F and inf exactly where due [lower inf={lo_inf}, upper inf={up_inf}]")
+            if w:
+                ob.detail = f"emitted: {w[0]!r}"
+        basic = fn(type("E", (), {"get_symbol": lambda s: "Sy"})(), decimals=-1)
+        sess.check("post", [], z3.BoolVal(basic == "Sy"), 0, label="Element.to_string(decimals=-1) == the symbol")
+        sess.check("cover", [], z3.BoolVal(n == 384), 0, label=f"combinations={n}")
+    return ("circuit/base:Element.to_string", "circuit/base", "Element.to_string", run)
+
+
+_targets_c03_with_connections = targets
+
+
+def targets():      # noqa: F811
+    return _targets_c03_with_connections() + [target_element_emitter()]
+
+
+def target_container_emitter():
+    """Container.to_string: the sub-circuits are written between the opening brace and the element's own parameters, in sorted
+    key order, as `key=open` (None), `key=short` (a connection without elements) or `key=<text of the connection, same decimals>`,
+    separated by ', '; with decimals < 0 only the symbol is printed."""
+    import itertools
+    import z3
+    from pyvc import overload as O
+    from pyvc.core import Session
+
+    def run(sess: Session):
+        for own, decimals in itertools.product(("Tl{R=1.0E+00/0.0E+00/inf}", "Tl{R=1.0E+00/0.0E+00/inf:lbl}", "Tl{:lbl}", "Tl{}"), (2, 12)):
+            asked = []
+
+            class Con:
+                def __init__(self, name, n):
+                    self.name, self.n = name, n
+
+                def get_elements(self):
+                    return [0] * self.n
+
+                def to_string(self, decimals=-1):
+                    asked.append((self.name, decimals))
+                    return f"<{self.name}>"
+            subs = {"Zeta": Con("zeta", 2), "X_1": None, "X_2": Con("x2", 0)}
+            me = type("C", (), {"_subcircuit_value": subs})()
+            ns = {"super": lambda: type("S", (), {"to_string": lambda s, decimals=-1: own})(), "sorted": sorted, "len": len}
+            O.load("circuit/base", ["Container.to_string"], ns)
+            out = ns["to_string"](me, decimals=decimals)
+            head, rest = own[:3], own[3:]
+            body = "X_1=open, X_2=short, Zeta=<zeta>"
+            want = head + body + (", " + rest if rest[0] not in ":}" else rest)
+            sess.check("post", [], z3.BoolVal(out == want and asked == [("zeta", decimals)]), 0, label=f"Container.to_string[{own!r}, decimals={decimals}]: sub-circuits in sorted order as open / short / text(same decimals), then the parameters")
+        ns = {"super": lambda: type("S", (), {"to_string": lambda s, decimals=-1: "Tl"})(), "sorted": sorted, "len": len}
+        O.load("circuit/base", ["Container.to_string"], ns)
+        sess.check("post", [], z3.BoolVal(ns["to_string"](type("C", (), {"_subcircuit_value": {}})(), decimals=-1) == "Tl"), 0, label="Container.to_string(decimals=-1) == the symbol")
+    return ("circuit/base:Container.to_string", "circuit/base", "Container.to_string", run)
+
+
+_targets_c03_with_element_emitter = targets
+
+
+def targets():      # noqa: F811
+    return _targets_c03_with_element_emitter() + [target_container_emitter()]
